@@ -48,6 +48,67 @@ fn check_exec(ctx: &mut Ctx, words: &[String], class: &str) {
         }
         None => ctx.violation(&format!("C19/debug-format/{}", class), "Debug output is not of the form `Exec { <cmdline> }`", w(&None)),
     }
+    // the alternate Debug form ({:#?}, used by dbg! and by derived Debug of enclosing structs) is Debug output too
+    let alt = format!("{:#?}", e);
+    if alt != dbg {
+        match strip(&alt, "Exec { ") {
+            Some(inner) => {
+                let got3 = sh_words(ctx, inner, &out);
+                if got3.as_deref() != Some(words) {
+                    ctx.violation(&format!("C19/alternate-debug/{}", class), "the alternate Debug rendering ({:#?}) does not evaluate back to the command", w(&got3));
+                }
+            }
+            None => ctx.violation(&format!("C19/alternate-debug-format/{}", class), "alternate Debug output is not of the form `Exec { <cmdline> }`", w(&None)),
+        }
+    }
+}
+
+/// Evaluate the printed command line at *command position* (`sh -c "<rendered>"`): the program is a real file on PATH
+/// that dumps its complete argv.  Catches renderings that sh reads as something other than a simple command
+/// (e.g. an unquoted NAME=value program word is an assignment).
+fn check_command_position(ctx: &mut Ctx, rng: &mut Rng) {
+    let dir = ctx.scratch("c19c");
+    let safe = ['a', 'Z', '9', '_', '-', '.', ',', '=', '+', '@', '%', ':', '~', '#', '!', '^', '{', '}', '[', ']', ' ', '$', '&', ';', '\'', '"', '*', '?', '(', ')', '<', '>', '|', '\\', 'é'];
+    let n = rng.range(1, 12);
+    let mut prog: String = (0..n).map(|_| *rng.pick(&safe)).collect();
+    if rng.chance(300) {
+        prog = format!("{}={}", *rng.pick(&["FOO", "a", "PATH", "x1"]), prog);
+    }
+    // never a shell builtin or keyword (`:`, `.`, `[`, `!`, `{` ... would not be looked up on PATH at all)
+    prog = format!("p{}", prog);
+    let link = dir.join(&prog);
+    if std::fs::hard_link(&ctx.vchild, &link).is_err() && std::fs::copy(&ctx.vchild, &link).is_err() {
+        return;
+    }
+    let args: Vec<String> = (0..rng.below(5)).map(|_| rand_word(rng, 12)).collect();
+    let e = Exec::cmd(&prog).args(&args);
+    let out = dir.join("argv.out");
+    let mut words = vec![prog.clone()];
+    words.extend(args.iter().cloned());
+    for (which, rendered) in [("to_cmdline_lossy", e.to_cmdline_lossy()), ("debug", strip(&format!("{:?}", e), "Exec { ").unwrap_or("").to_string()), ("alternate-debug", strip(&format!("{:#?}", e), "Exec { ").unwrap_or("").to_string())] {
+        let _ = std::fs::remove_file(&out);
+        let st = std::process::Command::new("/bin/sh")
+            .arg("-c")
+            .arg(&rendered)
+            .env("PATH", &dir)
+            .env("VCHILD_DUMP", &out)
+            .stdin(std::process::Stdio::null())
+            .stdout(std::process::Stdio::null())
+            .stderr(std::process::Stdio::null())
+            .status();
+        ctx.count("command_position_evaluations", 1);
+        let data = std::fs::read(&out).unwrap_or_default();
+        let mut got: Vec<String> = data.split(|&c| c == 0).map(|b| String::from_utf8_lossy(b).into_owned()).collect();
+        got.pop();
+        if got != words {
+            ctx.violation(
+                &format!("C19/command-position/{}", which),
+                "running the printed command line with sh does not start the original program with the original arguments",
+                J::obj().set("argv", J::arr_s(&words)).set("rendered", J::s(&rendered)).set("sh_started", J::arr_s(&got)).set("sh_status", J::s(&format!("{:?}", st.map(|s| s.code())))),
+            );
+            return;
+        }
+    }
 }
 
 fn check_pipeline(ctx: &mut Ctx, rng: &mut Rng, stages: &[Vec<String>]) {
@@ -71,9 +132,9 @@ fn check_pipeline(ctx: &mut Ctx, rng: &mut Rng, stages: &[Vec<String>]) {
         }
         p
     };
-    let dbg = format!("{:?}", pl);
+    let dbg = if rng.chance(500) { format!("{:?}", pl) } else { format!("{:#?}", pl) };
     ctx.count("pipelines_evaluated", 1);
-    let inner = match strip(&dbg, "Pipeline { ") {
+    let inner = match strip(dbg.trim_end(), "Pipeline { ") {
         Some(s) => s.to_string(),
         None => {
             ctx.violation("C19/pipeline-debug-format", "Debug output is not of the form `Pipeline { a | b }`", J::s(&dbg));
@@ -158,6 +219,8 @@ pub fn run(ctx: &mut Ctx) {
         }
         check_exec(ctx, &v, "random");
     });
+    let nc = ctx.n(600, 5000);
+    ctx.family("command-position", nc, |ctx, rng, _i| check_command_position(ctx, rng));
     let np = ctx.n(400, 2000);
     ctx.family("pipelines", np, |ctx, rng, _i| {
         let n = rng.range(2, 5) as usize;
